@@ -112,25 +112,83 @@ Example C07_mate_ext_hyps_satisfiable :
   cfg_real_mate_q 2 2 [1#2; 0; 1#2]%Q xmap [2;0;1] (1#4)%Q [0;1] [1;0] = Some [[0;1];[1;2]]%Z.
 Proof. cbv zeta. split; [reflexivity|]. split; [apply is_perm_sound; reflexivity|]. split; vm_compute; reflexivity. Qed.
 
-(** * UsefulnessCriterionIntegerSelection.problem: the bounds of the decision space can be stacked iff there is one cross
-    (finding C07-uc-integer-bounds-shape): with the nmating array every selection protocol carries (one entry per cross) the
-    upper bound has ncross * len(xmap) entries, the lower bound len(xmap) *)
+(** * UsefulnessCriterionIntegerSelection.problem: the bounds of the decision space (Model section 11).
+    Repaired code: for EVERY cross design the two bounds have one entry per candidate cross and are stacked; the upper bound is
+    nparent * sum(nmating) everywhere; every allocation of the design's matings (a fortiori of its ncross crosses) to the
+    candidate crosses is a point of the decision space, and the space is not degenerate.
+    Former code (finding C07-uc-integer-bounds-shape, fixed): the bounds could be stacked iff there was one cross. *)
 Lemma np_repeat_arr_length a n : length (np_repeat_arr a n) = length a * n.
 Proof. unfold np_repeat_arr. induction a as [|v t IH]; cbn [flat_map length]; [reflexivity|]. rewrite app_length, repeat_length, IH. lia. Qed.
-Theorem uc_int_bounds_iff : forall nc np nm nx, length nm = nc -> 0 < nx ->
-  (uc_int_bounds nc np nm nx <> None <-> nc = 1).
+
+Theorem uc_int_bounds_total : forall nc np nm nx,
+  uc_int_bounds nc np nm nx = Some (repeat 0%Z nx, repeat (Z.of_nat np * sumZ nm)%Z nx).
+Proof. intros nc np nm nx. unfold uc_int_bounds, np_stack2, uc_int_upper. cbv zeta. now rewrite !repeat_length, Nat.eqb_refl. Qed.
+
+Lemma sumZ_nonneg x : Forall (fun v => 0 <= v)%Z x -> (0 <= sumZ x)%Z.
+Proof. induction 1 as [|v t Hv _ IH]; cbn [sumZ fold_right]; [lia|]. unfold sumZ in IH. lia. Qed.
+Lemma sumZ_bounds_member x v : Forall (fun v => 0 <= v)%Z x -> In v x -> (v <= sumZ x)%Z.
 Proof.
-  intros nc np nm nx Hl Hx. unfold uc_int_bounds. cbv zeta. rewrite repeat_length, np_repeat_arr_length, map_length, Hl.
+  induction 1 as [|a t Ha Ht IH]; intros Hin; [destruct Hin|]. cbn [sumZ fold_right]. fold (sumZ t).
+  pose proof (sumZ_nonneg t Ht). destruct Hin as [->|Hin]; [lia|]. specialize (IH Hin). lia.
+Qed.
+(** a valid per-cross array sums to at least the number of crosses *)
+Lemma sumZ_pos_array nm : forallb (fun v => (0 <? v)%Z) nm = true -> (Z.of_nat (length nm) <= sumZ nm)%Z.
+Proof.
+  induction nm as [|v t IH]; cbn [forallb length sumZ fold_right]; [lia|]. fold (sumZ t). intros H.
+  apply andb_true_iff in H as [Hv Ht]. apply Z.ltb_lt in Hv. specialize (IH Ht). lia.
+Qed.
+
+Theorem uc_int_bounds_admit_every_allocation : forall nc np nm nx b x,
+  0 < np -> Forall (fun v => 0 <= v)%Z nm ->
+  uc_int_bounds nc np nm nx = Some b ->
+  length x = nx -> Forall (fun v => 0 <= v)%Z x -> (sumZ x <= sumZ nm)%Z ->
+  in_bounds b x = true.
+Proof.
+  intros nc np nm nx b x Hnp Hnm Hb Lx Hx Hs. rewrite uc_int_bounds_total in Hb. injection Hb as <-.
+  unfold in_bounds. cbn [fst snd]. rewrite !repeat_length, Lx, Nat.eqb_refl. cbn [andb].
+  pose proof (sumZ_nonneg nm Hnm) as Snm.
+  apply andb_true_iff. split; apply forallb_forall; intros [a c] Hin; cbn [fst snd]; apply Z.leb_le.
+  - pose proof (in_combine_l _ _ _ _ Hin) as Ha. apply repeat_spec in Ha. subst a.
+    apply in_combine_r in Hin. rewrite Forall_forall in Hx. now apply Hx.
+  - pose proof (in_combine_r _ _ _ _ Hin) as Hc. apply repeat_spec in Hc. subst c.
+    apply in_combine_l in Hin. pose proof (sumZ_bounds_member x a Hx Hin). nia.
+Qed.
+
+(** under the cross designs a protocol accepts: the upper bound is at least the number of crosses (so it is positive and every
+    multiset of ncross candidate crosses, written as a count vector, is a point of the decision space) *)
+Theorem uc_int_upper_covers_design : forall nc np nm npg,
+  proto_args_ok nc np (MArray nm) npg = true ->
+  (Z.of_nat nc <= sumZ nm)%Z /\ (sumZ nm <= uc_int_upper np nm)%Z /\ (0 < uc_int_upper np nm)%Z /\
+  0 < np /\ Forall (fun v => 0 <= v)%Z nm.
+Proof.
+  intros nc np nm npg H. unfold proto_args_ok in H. apply andb_true_iff in H as [H _]. apply andb_true_iff in H as [Hs Hm].
+  cbn [matpar_proto_ok] in Hm. apply andb_true_iff in Hm as [Hl Hp]. apply Nat.eqb_eq in Hl.
+  unfold shape_ok in Hs. apply andb_true_iff in Hs as [Hc Hn].
+  apply negb_true_iff, Nat.eqb_neq in Hc. apply negb_true_iff, Nat.eqb_neq in Hn.
+  pose proof (sumZ_pos_array nm Hp) as Hsum. rewrite Hl in Hsum. unfold uc_int_upper.
+  assert (HF : Forall (fun v => 0 <= v)%Z nm).
+  { apply Forall_forall. intros v Hv. rewrite forallb_forall in Hp. specialize (Hp v Hv). apply Z.ltb_lt in Hp. lia. }
+  repeat split; try assumption; nia.
+Qed.
+
+(** the former code *)
+Theorem old_uc_int_bounds_iff : forall nc np nm nx, length nm = nc -> 0 < nx ->
+  (old_uc_int_bounds nc np nm nx <> None <-> nc = 1).
+Proof.
+  intros nc np nm nx Hl Hx. unfold old_uc_int_bounds, np_stack2. cbv zeta. rewrite repeat_length, np_repeat_arr_length, map_length, Hl.
   destruct (Nat.eqb_spec nx (nc * nx)) as [E|N]; split; intros H; try congruence; try nia.
 Qed.
-Theorem uc_int_bounds_partial : forall np m nx, exists b, uc_int_bounds 1 np [m] nx = Some b.
-Proof.
-  intros np m nx. unfold uc_int_bounds. cbv zeta. rewrite repeat_length, np_repeat_arr_length. cbn [map length].
-  rewrite Nat.mul_1_l, Nat.eqb_refl. eexists. reflexivity.
-Qed.
-Theorem uc_int_bounds_refuted : exists nc np nm nx,
-  proto_args_ok nc np (MArray nm) (MScalar 1%Z) = true /\ 0 < nx /\ uc_int_bounds nc np nm nx = None.
+Theorem old_uc_int_bounds_refuted : exists nc np nm nx,
+  proto_args_ok nc np (MArray nm) (MScalar 1%Z) = true /\ 0 < nx /\ old_uc_int_bounds nc np nm nx = None /\
+  uc_int_bounds nc np nm nx = Some (repeat 0%Z nx, repeat 4%Z nx).
 Proof. exists 2, 2, [1;1]%Z, 3. repeat split. lia. Qed.
+(** where the former code worked (one cross) the repaired code computes the same bounds *)
+Theorem uc_int_bounds_agrees_with_old_on_one_cross : forall np m nx,
+  old_uc_int_bounds 1 np [m] nx = uc_int_bounds 1 np [m] nx.
+Proof.
+  intros np m nx. rewrite uc_int_bounds_total. unfold old_uc_int_bounds, np_stack2, np_repeat_arr. cbv zeta. cbn [map flat_map sumZ fold_right].
+  rewrite app_nil_r, !repeat_length, Nat.eqb_refl. repeat f_equal; lia.
+Qed.
 
 (** * object lifecycle (Model section 12) *)
 Lemma session_app s0 a b : session s0 (a ++ b) = session (session s0 a) b.
@@ -153,3 +211,5 @@ Proof. intros s0 s0' h h' E. rewrite E. repeat split. Qed.
 
 Print Assumptions cfg_binary_mate_spec.
 Print Assumptions cfg_real_mate_q_spec.
+Print Assumptions uc_int_bounds_admit_every_allocation.
+Print Assumptions uc_int_upper_covers_design.
